@@ -481,6 +481,7 @@ def run_batch(pid: str, tier: str, verif_seed: int, runs: Optional[int], workers
             print(f"TRIAGE {key[0]} @ {key[1]} {dict(key[2])}: {info['rec']['detail'][:400]}")
             print("   plan:", json.dumps(info["plan"].get("steps"), default=core._default)[:700])
         return 1
+    unreproducible = 0
     if unknown:
         limit = 4
         for key, info in sorted(unknown.items(), key=lambda kv: kv[1]["size"])[:limit]:
@@ -492,8 +493,9 @@ def run_batch(pid: str, tier: str, verif_seed: int, runs: Optional[int], workers
                 # not reproducible on its own: does it depend on the runs that preceded it in its chunk?
                 prefix = [prop.generate(core.run_seed(verif_seed, pid, i), tier, i) for i in range(info["chunk_start"], info["index"])]
                 if not prefix or _still_fails(prop, plan, key, prefix) is None:
-                    print(f"HARNESS-ERROR violation {key[0]}@{key[1]} of run index {info['index']} does not reproduce in a pristine process, neither alone nor after the {len(prefix)} preceding runs of its chunk", flush=True)
-                    return 2
+                    print(f"note: violation {key[0]}@{key[1]} of run index {info['index']} does not reproduce in a pristine process, neither alone nor after the {len(prefix)} preceding runs of its chunk (not reported)", flush=True)
+                    unreproducible += 1
+                    continue
                 # shrink the history greedily
                 t_end = time.time() + budget_s
                 i = 0
@@ -577,6 +579,9 @@ def run_batch(pid: str, tier: str, verif_seed: int, runs: Optional[int], workers
     os.makedirs(os.path.join(VERIF, "evidence"), exist_ok=True)
     with open(os.path.join(VERIF, "evidence", f"{pid}.json"), "w") as dst:
         json.dump(doc, dst, indent=1, sort_keys=True, default=core._default)
+    if unreproducible and exit_code == 0:
+        print(f"HARNESS-ERROR {unreproducible} violation class(es) were observed but none could be reproduced", flush=True)
+        exit_code = 2
     if harness_errors and exit_code == 0:
         print("HARNESS-ERROR", len(harness_errors), "runs failed inside the harness and no violation was confirmed", flush=True)
         exit_code = 2
